@@ -407,7 +407,7 @@ def memory_stream(ctx, rng, count):
     for k in range(count):
         r = rng.choice([10e-6, 1e-6, 4e-6, 20e-6, 10e-6, 6.4e-6, 2.5e-6, 0.5e-6])
         system = pp.Opts(max_grad=1e12, max_slew=1e16, grad_raster_time=r, rf_raster_time=1e-6, block_duration_raster=r)
-        seq = pp.Sequence(system)
+        seq = pp.Sequence(system, use_block_cache=rng.random() < 0.6)
         stored = {}
         kinds = []
         for b in range(rng.randint(2, 5)):
@@ -437,7 +437,7 @@ def memory_stream(ctx, rng, count):
                     base = np.round(np.sin(math.pi * (np.arange(n) + 0.5) / n) * 0.9, 7)
                 j = rng.randrange(n)
                 base[j] = 1.0
-                d = rng.choice([3e-8, 6e-8, 6e-8, 1.2e-7, 4e-7, 1e-6])
+                d = rng.choice([3e-8, 6e-8, 6e-8, 1.2e-7, 4e-7, 1e-6, 1e-11, 1e-12])   # the last two merge at 9 digits
                 for ch in rng.sample('xyz', rng.choice([2, 3])):
                     pat = np.array([rng.choice([-1.0, 0.0, 1.0]) for _ in range(n)])
                     pat[j] = 0.0
@@ -533,6 +533,9 @@ def memory_stream(ctx, rng, count):
                 seq.write(fn, create_signature=False, remove_duplicates=rng.random() < 0.5)
             except AssertionError:
                 ctx.count('memory.skipped_write_assertion')
+                continue
+            # writing (with or without duplicate removal) must leave the object as it was: decode it again
+            if not compare(seq, 'after-write'):
                 continue
             s2 = pp.Sequence(system, use_block_cache=rng.random() < 0.5)
             ropts = {'remove_duplicates': False} if rng.random() < 0.5 else {}
